@@ -123,6 +123,7 @@ impl GraphRunner for Graph {
             if self.cancel_token.is_canceled() {
                 break;
             }
+            let moved_before = crate::stream::moved();
             for (n, b) in self.blocks.iter_mut().enumerate() {
                 if eof[n] {
                     continue;
@@ -167,6 +168,14 @@ impl GraphRunner for Graph {
                 if eof[n] {
                     info!("{} EOF, exiting", name);
                 }
+            }
+            // A block may move data and still report that it waits for a
+            // stream, or EOF (e.g. a source emitting its last samples). The
+            // blocks called before it in this pass have not seen that data
+            // yet, so the graph is only done if the whole pass moved nothing.
+            if crate::stream::moved() != moved_before {
+                done = false;
+                all_idle = false;
             }
             if done {
                 break;
